@@ -244,8 +244,12 @@ Definition crypto_pwhash (outlen : nat) (pwd salt : bytes) (opslimit memlimit al
 Definition hash_with_salt (pwd salt : bytes) (hash_length : nat) (opslimit memlimit alg : Z) : outcome bytes :=
   crypto_pwhash hash_length pwd salt opslimit memlimit alg.
 
-Definition verify (stored salt : bytes) (hash_length : nat) (opslimit memlimit alg : Z) (pwd : bytes) : outcome unit :=
-  let* computed := hash_with_salt pwd salt hash_length opslimit memlimit alg in
-  if bytes_eqb stored computed then Ok tt else Err.
+(* verify: the declared length (a number of the record: anything up to 2^64 - 1 once deserialised, hence Z) is first compared
+   with the length of the stored hash; only then is a buffer of that length made and filled *)
+Definition verify (stored salt : bytes) (hash_length : Z) (opslimit memlimit alg : Z) (pwd : bytes) : outcome unit :=
+  if negb (Z.of_nat (length stored) =? hash_length) then Err
+  else
+    let* computed := hash_with_salt pwd salt (Z.to_nat hash_length) opslimit memlimit alg in
+    if bytes_eqb stored computed then Ok tt else Err.
 
 End Argon2Impl.
